@@ -3142,8 +3142,20 @@ The what argument tells us what sort of state is expected (allowed values are de
                                             # dependencies are usually flattened)
 
             q = utils.Quiet(self)
+            #
+            # The inexact walk must arrive at the products that we list, so a product name is tied to the
+            # version listed for it.  That is only possible when a single version of the name is listed:
+            # when the dependencies include two versions of a product (or the name is topProduct's own)
+            # each table entry keeps the version that it asks for, otherwise the dependencies of all
+            # versions but one would be missing from the sort
+            #
+            listedProducts = {}
+            for prod in dependentProducts:
+                listedProducts.setdefault(prod[0].name, set()).add(prod[0])
+
             reqVersions = requiredVersions.copy()
-            reqVersions.update(dict([(prod[0].name,prod[0].version) for prod in dependentProducts]))
+            reqVersions.update(dict([(name, list(prods)[0].version) for name, prods in listedProducts.items()
+                                     if len(prods) == 1 and name != topProduct.name]))
             self.getDependentProducts(topProduct, setup, shouldRaise,
                                       followExact=False, productDictionary=productDictionary,
                                       requiredVersions=reqVersions)
@@ -3201,19 +3213,23 @@ The what argument tells us what sort of state is expected (allowed values are de
             #
             # Replace the recursion level by the topological depth
             #
-            tsorted_depth = {}
+            tsorted_depth = {}          # depth of a product name
+            tsorted_productDepth = {}   # depth of a product; two versions of a product needn't share a depth
             nlevel = len(sortedProducts) + 1 # "+ 1" to allow for topProduct
             for i, pp in enumerate(sortedProducts):
                 for p in pp:
                     if p:
                         tsorted_depth[p.name] = nlevel - i - 1
+                        tsorted_productDepth[p] = nlevel - i - 1
 
             if defaultProduct:
                 tsorted_depth[defaultProduct] = nlevel
 
             for p in dependentProducts:
                 pname = p[0].name
-                if pname in tsorted_depth:
+                if p[0] in tsorted_productDepth:
+                    p[2] = tsorted_productDepth[p[0]]
+                elif pname in tsorted_depth: # e.g. a setup LOCAL: version, sorted as the declared version
                     p[2] = tsorted_depth[pname]
 
             dependentProducts.sort(**cmp_or_key(lambda a, b: cmp((a[2], a[0].name),
